@@ -113,6 +113,7 @@ func (v *victim) stop() {
 		<-v.done
 	}
 	v.cl.Close()
+	v.out.Close()
 }
 
 // goroutines makes the child dump its goroutines (SIGQUIT) and returns the cql-proxy related ones.
@@ -159,7 +160,13 @@ func startVictim(realBinary bool, maxV, hosts, conns int, useTLS bool) (*victim,
 	}
 	cl.MaxVersion = primitive.ProtocolVersionDse2
 	cl.Keyspaces["ks1"] = true
-	v := &victim{cl: cl, out: &syncBuf{}, done: make(chan struct{}), maxV: maxV, hosts: hosts, conns: conns, stream: 10}
+	v := &victim{cl: cl, out: newSyncBuf(), done: make(chan struct{}), maxV: maxV, hosts: hosts, conns: conns, stream: 10}
+	started := false
+	defer func() {
+		if !started {
+			v.out.Close()
+		}
+	}()
 	ctl := 4
 	if maxV < ctl {
 		ctl = maxV
@@ -184,7 +191,7 @@ func startVictim(realBinary bool, maxV, hosts, conns int, useTLS bool) (*victim,
 		}
 		v.cmd = exec.Command(bin, args...)
 		v.cmd.Env = []string{"PATH=/usr/bin:/bin", "HOME=/tmp"}
-		v.cmd.Stdout, v.cmd.Stderr = v.out, v.out
+		v.cmd.Stdout, v.cmd.Stderr = v.out.File(), v.out.File()
 		if err := v.cmd.Start(); err != nil {
 			cl.Close()
 			return nil, err
@@ -215,7 +222,7 @@ func startVictim(realBinary bool, maxV, hosts, conns int, useTLS bool) (*victim,
 		}
 		v.cmd = exec.Command(bin, "-contact", cl.HostIP(0), "-port", fmt.Sprint(cl.Port), "-maxversion", fmt.Sprint(maxV), "-version", fmt.Sprint(ctl), "-numconns", fmt.Sprint(conns),
 			"-heartbeat", "40ms", "-idle", "1s", "-connecttimeout", "500ms")
-		v.cmd.Stderr = v.out
+		v.cmd.Stderr = v.out.File()
 		stdout, _ := v.cmd.StdoutPipe()
 		if err := v.cmd.Start(); err != nil {
 			cl.Close()
@@ -269,6 +276,7 @@ func startVictim(realBinary bool, maxV, hosts, conns int, useTLS bool) (*victim,
 		return nil, fmt.Errorf("canary prepare: %v", err)
 	}
 	v.canaryID = id
+	started = true
 	return v, nil
 }
 
